@@ -1,6 +1,6 @@
 """C20 - time-series framing never looks ahead (build_ts_X_y, ts_mape)."""
 from vf import loader
-from vf.core import Clause, Outcome, Violation, require
+from vf.core import Clause, Outcome, Violation, require, with_sk
 
 import numpy as np
 import pandas
@@ -307,10 +307,10 @@ def _mape_cases(draw, naive=False):
 CLAUSES = [
     Clause("frame-exhaustive", check_frame, cases=_enum_cases, quick_shards=8, thorough_shards=16, exhaustive=True,
            doc="all (n, past, delay2, ncol, weights, same_rows) within the bounds; every cell decoded to its time index"),
-    Clause("frame-values", check_frame, strategy=lambda tier: _value_cases(tier), quick=1500, thorough=30000,
+    Clause("frame-values", check_frame, strategy=lambda tier: with_sk(_value_cases(tier)), quick=1500, thorough=30000,
            doc="injective real series, float32/float64"),
-    Clause("mape-nonneg", check_mape_nonneg, strategy=lambda tier: _mape_cases(False), quick=1500, thorough=30000,
+    Clause("mape-nonneg", check_mape_nonneg, strategy=lambda tier: with_sk(_mape_cases(False)), quick=1500, thorough=30000,
            doc="ts_mape returns a non-negative number equal to the documented ratio, also for constant series"),
-    Clause("mape-naive", check_mape_naive, strategy=lambda tier: _mape_cases(True), quick=1500, thorough=30000,
+    Clause("mape-naive", check_mape_naive, strategy=lambda tier: with_sk(_mape_cases(True)), quick=1500, thorough=30000,
            doc="ts_mape == 1 for the previous-value forecast on non-constant series"),
 ]
